@@ -9,7 +9,9 @@ AllBytes == 0..255
 Init == b = << >>
 Next == Len(b) < N /\ \E a \in Alpha : b' = Append(b, a)
 Spec == Init /\ [][Next]_b
-LawsHold == Laws(b)
-Emit == PrintT(ToJson(Row(b)))
-EmitCompact == PrintT(ToJson(CompactRow(b)))
+\* one invariant: the laws hold for this input, and its table row is printed (decoders evaluated once)
+Judge == LET s == DecodeString(b)  l == DecodeList(b)  d == Deep(b) IN
+         LawsOf(b, s, l, d) /\ PrintT(ToJson(RowOf(b, s, l, d)))
+JudgeCompact == LET s == DecodeString(b)  l == DecodeList(b)  d == Deep(b)  r == RowOf(b, s, l, d) IN
+         LawsOf(b, s, l, d) /\ PrintT(ToJson(<<r[1], r[2], r[3], r[4]>>))
 =============================================================================
